@@ -244,7 +244,8 @@ def one_iteration(state, names, target, search_limit):
                 engine.cut_now("end of one proposal iteration")
 
     def observer(kind, seq):
-        seqs.append(tuple(seq))
+        if kind == "choice":
+            seqs.append(tuple(seq))
 
     acc = {}     # prefix -> (S', leaf prob, threshold)
     rej = {}     # prefix -> [leaf prob, threshold, proposed state computed by the harness]
